@@ -402,6 +402,7 @@ class K:
 
 
 FELL_OFF = "FELL_OFF_THE_END"
+UNROLL_MAX = 3          # constant-trip loops of up to 3 iterations are unrolled, longer ones become fuel loops
 JOIN_THRESHOLD = 160
 
 
@@ -1044,6 +1045,8 @@ class Fn:
 
     def assign(self, lhs, op, rhs):
         """lines of one assignment statement `lhs op rhs`"""
+        if op == "=" and rhs[0] == "assign" and rhs[1] == "=" and rhs[2][0] == "id" and self.vars.get(rhs[2][1], {}).get("kind") == "int":
+            return self.assign(rhs[2], "=", rhs[3]) + self.assign(lhs, "=", rhs[2])       # a = b = c
         # pointer locals
         if lhs[0] == "id" and self.vars.get(lhs[1], {}).get("kind") == "ptr":
             v = self.vars[lhs[1]]
@@ -1306,7 +1309,7 @@ class Fn:
         else:
             init, cond, step, body = None, s[1], None, s[2]
         n = self.const_trip(init, cond, step, body)
-        if n is not None:
+        if n is not None and n <= UNROLL_MAX:
             return self.unroll(init, step, body, n, k, s)
         return self.fuel_loop(init, cond, step, body, k, s)
 
@@ -1316,6 +1319,8 @@ class Fn:
         if init[0] == "decl" and len(init[1]) == 1 and init[1][0][2] is not None:
             return init[1][0][0], init[1][0][2]
         if init[0] == "expr" and init[1][0] == "assign" and init[1][1] == "=" and init[1][2][0] == "id":
+            if init[1][3][0] == "assign" and init[1][3][1] == "=" and init[1][3][2][0] == "id":
+                return init[1][3][2][1], init[1][3][3]                                 # for (a = i = c; …): the counter is i
             return init[1][2][1], init[1][3]
         return None
 
